@@ -1,6 +1,6 @@
 import McpModel.Sessions.Obs
 /-!
-E7 — the typed **property monitor** of C11.
+E7 — the typed **property monitor** of C11 (and, clause group `close`, of the session half of C05).
 
 The C11 clauses as a total, decidable function on the *implementation's* observations (`Obs`), derived
 from an abstract session table that does not use the model's state: a session is a name, an owner, the
